@@ -19,38 +19,6 @@ import (
 	"sync/atomic"
 )
 
-type linPut struct {
-	id  []byte
-	val stVal
-}
-
-func linPlanString(plan [][]linPut) string {
-	ts := make([]string, len(plan))
-	for i, t := range plan {
-		ps := make([]string, len(t))
-		for j, p := range t {
-			ps[j] = hx(p.id) + "," + p.val.String()
-		}
-		ts[i] = strings.Join(ps, ";")
-	}
-	return strings.Join(ts, "/")
-}
-
-func linParsePlan(s string) [][]linPut {
-	var plan [][]linPut
-	for _, t := range strings.Split(s, "/") {
-		var ps []linPut
-		for _, p := range strings.Split(t, ";") {
-			f := strings.Split(p, ",")
-			if len(f) == 2 {
-				ps = append(ps, linPut{unhx(f[0]), parseVal(f[1])})
-			}
-		}
-		plan = append(plan, ps)
-	}
-	return plan
-}
-
 func stLin(c *Ctx, capMB uint64, node [32]byte, plan [][]linPut) {
 	head := fmt.Sprintf("lin %d %s %s", capMB, hx(node[:]), linPlanString(plan))
 	var out string
